@@ -11,7 +11,7 @@ git checkout -q -- . ; git clean -fdq
 git apply --check "$out/patch.diff" || { echo "[confirm] patch does not apply to the pinned+fixed tree"; exit 2; }
 # place demo files
 pkgs=""; tests=""
-for f in "$out"/demo/*; do
+for f in $(find "$out/demo" -type f); do
   [ -f "$f" ] || continue
   p=$(head -1 "$f" | sed -n 's#^// *path: *##p')
   [ -n "$p" ] || { echo "[confirm] demo file $f has no path line"; continue; }
@@ -27,7 +27,7 @@ git apply "$out/patch.diff"
 go build ./... || { echo "[confirm] does not build"; git checkout -q -- .; git clean -fdq; exit 2; }
 go test -count=1 -timeout 5m -run "^($run)\$" $pkgs > /tmp/confirm.mut.txt 2>&1; rc_mut=$?
 # existing suite with the change (demo files removed)
-for f in "$out"/demo/*; do p=$(head -1 "$f" | sed -n 's#^// *path: *##p'); [ -n "$p" ] && rm -f "$p"; done
+for f in $(find "$out/demo" -type f); do p=$(head -1 "$f" | sed -n 's#^// *path: *##p'); [ -n "$p" ] && rm -f "$p"; done
 go test -vet=off -count=1 -timeout 8m -p 6 ./... > /tmp/confirm.suite.txt 2>&1; rc_suite=$?
 if [ $rc_suite -ne 0 ]; then
   failed=$(grep '^FAIL' /tmp/confirm.suite.txt | awk '{print $2}' | grep -v '^$' | sort -u | tr '\n' ' ')
@@ -38,7 +38,7 @@ git checkout -q -- . ; git clean -fdq
 echo "[confirm] $id $m: demo clean rc=$rc_clean (want 0), demo with change rc=$rc_mut (want !=0), suite with change rc=$rc_suite (want 0)"
 if [ $rc_clean -eq 0 ] && [ $rc_mut -ne 0 ] && [ $rc_suite -eq 0 ]; then
   d=/verif/seeded/$id-$m; mkdir -p $d/demo
-  cp "$out/patch.diff" $d/; cp "$out"/demo/* $d/demo/ 2>/dev/null; [ -f "$out/notes.md" ] && cp "$out/notes.md" $d/
+  cp "$out/patch.diff" $d/; cp -r "$out"/demo/* $d/demo/ 2>/dev/null; [ -f "$out/notes.md" ] && cp "$out/notes.md" $d/
   echo "confirmed" > $d/.confirmed
   echo "[confirm] kept in $d"
 else
